@@ -131,6 +131,8 @@ def symeig(A: LinearOperator, neig: Optional[int] = None,
         if M is not None:
             M.check()
 
+    if isinstance(method, str):
+        method = method.lower()
     if method == "exacteig":
         return exacteig(A, neig, mode, M)
     else:
